@@ -113,6 +113,19 @@ func condKindOnEdge(cond ssa.Value, val bool) string {
 		}
 		break
 	}
+	if bo, ok := c.(*ssa.BinOp); ok && (bo.Op == token.EQL || bo.Op == token.NEQ) {
+		// bytes.Compare(a, b) == 0 is bytes.Equal(a, b)
+		for _, pr := range [][2]ssa.Value{{bo.X, bo.Y}, {bo.Y, bo.X}} {
+			if cl, isC := pr[0].(*ssa.Call); isC && isPkgFuncCall(cl.Common(), "bytes", "Compare") {
+				if k0, isK := pr[1].(*ssa.Const); isK && k0.Value != nil && k0.Value.String() == "0" {
+					if (bo.Op == token.EQL) == v {
+						return "call:bytes.Equal=true"
+					}
+					return "call:bytes.Equal=false"
+				}
+			}
+		}
+	}
 	k := condKind(c)
 	if x, nilWhenTrue, ok := nilTest(c); ok {
 		isNil := nilWhenTrue == v
@@ -158,6 +171,12 @@ func condKindOnEdge(cond ssa.Value, val bool) string {
 			return k + "=false"
 		}
 	case k == "status-code", k == "eof":
+		if _, isCall := c.(*ssa.Call); isCall && k == "eof" {
+			if v {
+				return k + ":is"
+			}
+			return k + ":is-not"
+		}
 		if bo, ok := c.(*ssa.BinOp); ok && (bo.Op == token.EQL || bo.Op == token.NEQ) {
 			if (bo.Op == token.EQL) == v {
 				return k + ":is"
@@ -290,6 +309,10 @@ func condKind(cond ssa.Value) string {
 		}
 		return "extract"
 	case *ssa.Call:
+		if isPkgFuncCall(x.Common(), "errors", "Is") && len(x.Call.Args) == 2 && isIOEOF(x.Call.Args[1]) && strings.HasSuffix(errOrigin(x.Call.Args[0]), ".Recv") {
+			// a stream's Recv reports the end of the stream as io.EOF itself: `err == io.EOF` spelt with errors.Is
+			return "eof"
+		}
 		return "call:" + calleeName(x.Common())
 	case *ssa.Phi, *ssa.Parameter:
 		return "flag"
@@ -414,6 +437,9 @@ func collectSkipSites(p *Program, pkgs []string) (map[string][]string, map[strin
 						sitePos, siteBlock = x.Pos(), x.Block()
 					case *ssa.Return:
 						// a way out of the function: a new kind of condition in front of one is a new fast path
+						if exemptExit(x) {
+							return // a loud rejection, or "nothing asked, nothing to do": see skipexempt.go
+						}
 						base = fkey + "|return"
 						sitePos, siteBlock = x.Pos(), x.Block()
 						if !sitePos.IsValid() {
@@ -480,6 +506,9 @@ func collectSkipSites(p *Program, pkgs []string) (map[string][]string, map[strin
 								// form knows nothing there either
 								return true
 							}
+							if exemptGuard(cond, val) {
+								return true // the other side refuses loudly or has nothing to do: not a way around the step
+							}
 							k := condKindOnEdge(cond, val)
 							set[k] = true
 							if _, ok := cp[k]; !ok {
@@ -504,6 +533,32 @@ func collectSkipSites(p *Program, pkgs []string) (map[string][]string, map[strin
 		}
 	}
 	return sites, poss, condPos
+}
+
+// errTestWidened: the test "the error of callee X is nil" is still made, on a variable that by now may
+// also hold an error of something else (`if err == nil && bad { err = status.Errorf(…) }; if err == nil { … }`):
+// among the guards there is a nil test of an error whose origins include all of w's.
+func errTestWidened(w string, have map[string]bool) bool {
+	want := strings.Split(strings.TrimPrefix(w, "err-nil:"), "+")
+	for h := range have {
+		if !strings.HasPrefix(h, "err-nil:") {
+			continue
+		}
+		got := map[string]bool{}
+		for _, o := range strings.Split(strings.TrimPrefix(h, "err-nil:"), "+") {
+			got[o] = true
+		}
+		all := true
+		for _, o := range want {
+			if !got[o] {
+				all = false
+			}
+		}
+		if all {
+			return true
+		}
+	}
+	return false
 }
 
 // isErrorConstructor: status.Error(f), errors.New, fmt.Errorf and the module's StatusWrap* helpers.
@@ -691,7 +746,7 @@ func runSkipCond(c *Ctx, pkgs []string) {
 			// only tests of a particular callee's error: other guards are regularly re-expressed (a
 			// switch whose earlier cases imply the condition) without the path changing
 			for w := range al {
-				if strings.HasPrefix(w, "err-nil:") && !have[w] && !excusedDrop(w, have) {
+				if strings.HasPrefix(w, "err-nil:") && !have[w] && !errTestWidened(w, have) && !excusedDrop(w, have) {
 					return false
 				}
 			}
@@ -836,6 +891,16 @@ func runSkipCond(c *Ctx, pkgs []string) {
 				}
 			}
 		}
+		if strings.HasPrefix(parts[1], "reject ") && len(cks) > len(rks) {
+			// more rejections than before: the surplus is new, and a new rejection has no guards to compare
+			surplus := len(cks) - len(rks)
+			for _, ck := range cks {
+				if surplus > 0 && unmatched[ck] {
+					delete(unmatched, ck)
+					surplus--
+				}
+			}
+		}
 		for _, ck := range cks {
 			ord := ck[strings.LastIndex(ck, "|")+1:]
 			if !unmatched[ck] {
@@ -867,7 +932,7 @@ func runSkipCond(c *Ctx, pkgs []string) {
 				// a dropped check: a kind that guards every reference site of this step and not this one
 				var dropped []string
 				for w, n := range everywhere {
-					if n == len(rks) && strings.HasPrefix(w, "err-nil:") && !haveK[w] && !excusedDrop(w, haveK) {
+					if n == len(rks) && strings.HasPrefix(w, "err-nil:") && !haveK[w] && !errTestWidened(w, haveK) && !excusedDrop(w, haveK) {
 						dropped = append(dropped, w)
 					}
 				}
